@@ -149,6 +149,69 @@ def _none_names(stmts, descend_loops, trackable):
     return out
 
 
+def _alias_map(stmts, descend_loops, exclude):
+    """locals bound exactly once (by a plain assignment in the analysed statements) to a name / attribute chain that is not
+    itself stored to: tests on the local are tests on that expression (`opacity = self.opacity ... if opacity is not None`)"""
+    vals = {}
+    stored = set()
+
+    def rec(body):
+        for st in body:
+            for n in ast.walk(st):
+                if isinstance(n, ast.Attribute) and isinstance(n.ctx, (ast.Store, ast.Del)):
+                    stored.add(unparse(n))
+                elif isinstance(n, ast.Name) and isinstance(n.ctx, (ast.Store, ast.Del)):
+                    vals.setdefault(n.id, []).append(None)
+            if isinstance(st, ast.Assign) and len(st.targets) == 1 and isinstance(st.targets[0], ast.Name):
+                vals[st.targets[0].id][-1] = st.value
+    rec(stmts)
+
+    def chain(e):
+        return isinstance(e, ast.Name) or (isinstance(e, ast.Attribute) and chain(e.value))
+    out = {}
+    for n, vs in vals.items():
+        if len(vs) == 1 and vs[0] is not None and isinstance(vs[0], ast.Attribute) and chain(vs[0]) and n not in exclude:
+            root = vs[0]
+            while isinstance(root, ast.Attribute):
+                root = root.value
+            if unparse(vs[0]) not in stored and root.id not in vals:
+                out[n] = vs[0]
+    return out
+
+
+class _Alias(ast.NodeTransformer):
+    def __init__(self, m):
+        self.m = m
+
+    def visit_Name(self, node):
+        if isinstance(node.ctx, ast.Load) and node.id in self.m:
+            return self.m[node.id]
+        return node
+
+
+def _unalias(test):
+    m = _OPT.get('aliases')
+    if not m or not any(isinstance(n, ast.Name) and n.id in m for n in ast.walk(test)):
+        return test
+    import copy
+    return _Alias(m).visit(copy.deepcopy(_strip(test)))
+
+
+def _strip(e):
+    """copy of an expression without the model's parent links"""
+    import copy
+    if isinstance(e, list):
+        return [_strip(x) for x in e]
+    if not isinstance(e, ast.AST):
+        return e
+    new = copy.copy(e)
+    if hasattr(new, '_parent'):
+        del new._parent
+    for fld, val in ast.iter_fields(e):
+        setattr(new, fld, _strip(val))
+    return new
+
+
 class _Env:
     """atom text -> bool: tracked flags first, then the row's assignment (recording which atoms were consulted)"""
 
@@ -181,7 +244,7 @@ def _collect(stmts, out, objs, descend_loops, flags=()):
                 out.add(at.text)
                 objs.setdefault(at.text, at)
         if isinstance(st, ast.If):
-            for at, pol in all_atoms(st.test):
+            for at, pol in all_atoms(_unalias(st.test)):
                 out.add(at.text)
                 objs.setdefault(at.text, at)
             _collect(st.body, out, objs, descend_loops, flags)
@@ -219,7 +282,7 @@ def _run(stmts, asg, events, event_of, terminal_yield, descend_loops):
                 st.targets[0].id in asg.tracked:
             asg.flags[st.targets[0].id] = eval_struct(literals(st.value), asg)
         if isinstance(st, ast.If):
-            branch = st.body if eval_struct(literals(st.test), asg) else st.orelse
+            branch = st.body if eval_struct(literals(_unalias(st.test)), asg) else st.orelse
             _run(branch, asg, events, event_of, terminal_yield, descend_loops)
         elif isinstance(st, (ast.Return, ast.Raise, ast.Continue, ast.Break)):
             if _OPT['bool_returns'] and isinstance(st, ast.Return) and isinstance(st.value, ast.Name) and isinstance(asg, _Env) and \
@@ -254,6 +317,7 @@ def table(stmts, classify, event_of=None, terminal_yield=True, descend_loops=Fal
     finally:
         _OPT['bool_returns'] = False
         _OPT['none_names'] = ()
+        _OPT['aliases'] = {}
 
 
 def _table(stmts, classify, event_of, terminal_yield, descend_loops):
@@ -261,6 +325,7 @@ def _table(stmts, classify, event_of, terminal_yield, descend_loops):
     flags = _flag_names(stmts, descend_loops)
     nones = _none_names(stmts, descend_loops, _flag_names.trackable)
     _OPT['none_names'] = nones
+    _OPT['aliases'] = _alias_map(stmts, descend_loops, set(flags) | set(nones))
     _collect(stmts, atoms, objs, descend_loops, flags)
     atoms = sorted(atoms)
     if len(atoms) > MAX_ATOMS:
